@@ -13,7 +13,7 @@ ID = "C09"
 LEVEL = "exploration"
 RULE = ("valid streams (written by pyjelly and by the reference producer, delimited and single-frame, > 64 KiB ones, and "
         "hand-framed ones whose first frame is exactly 10 / 11 / 12 / 127 / 128 / 130 bytes) are parsed from: "
-        "BytesIO (baseline), a regular file, BufferedReader(file), gzip, a non-seekable RawIOBase double that dribbles by "
+        "BytesIO (baseline), a regular file, BufferedReader(file), BytesIO / file positioned after a foreign header (offset > 0), gzip, a non-seekable RawIOBase double that dribbles by "
         "schedule (all-1, all-2, all-3, [1,1,k], [2,k], frame boundary +-1, random sizes >= 1), a BufferedReader around that "
         "double (what socket.makefile('rb') / an HTTP response is), and real os.pipe / socketpair sources fed by a "
         "dribbling writer thread (kernel-made short reads, recorded). Oracle: events yielded by parse_jelly_flat / "
@@ -84,6 +84,19 @@ def run_source(kind: str, data: bytes, sched, integ: str, entry: str, tmpdir: st
             f.write(data)
         with io.BufferedReader(io.FileIO(p, "rb"), buffer_size=16) as f:
             r = parse_from(integ, entry, f)
+    elif kind == "bytesio-offset":
+        pre = b"HDR\x0a\x00" * 3
+        f = io.BytesIO(pre + data)
+        f.seek(len(pre))                # the caller consumed a container header first
+        r = parse_from(integ, entry, f)
+    elif kind == "file-offset":
+        pre = b"\x0a\x0a\x0aXYZ"
+        p = os.path.join(tmpdir, "o.bin")
+        with open(p, "wb") as f:
+            f.write(pre + data)
+        with open(p, "rb") as f:
+            f.seek(len(pre))
+            r = parse_from(integ, entry, f)
     elif kind == "gzip":
         with gzip.open(io.BytesIO(gzip.compress(data)), "rb") as f:
             r = parse_from(integ, entry, f)
@@ -112,7 +125,7 @@ def run_source(kind: str, data: bytes, sched, integ: str, entry: str, tmpdir: st
     return r[0], r[1], log
 
 
-KINDS = ["file", "file-raw-buffered", "gzip", "dribble-raw", "dribble-buffered", "pipe-raw", "pipe-buffered",
+KINDS = ["file", "file-raw-buffered", "bytesio-offset", "file-offset", "gzip", "dribble-raw", "dribble-buffered", "pipe-raw", "pipe-buffered",
          "socket-raw", "socket-buffered"]
 
 
